@@ -105,12 +105,34 @@ func fromAttr(a attribute.Value) val {
 	return val{}
 }
 
+// coqList renders a list of element terms; long lists (the > 1024 element slice values) are run-length
+// encoded as (repeat x (N.to_nat k) ++ ...) so that the case literal stays small.
+func coqList(items []string) string {
+	if len(items) <= 64 {
+		return vgen.List(items)
+	}
+	var parts []string
+	for i := 0; i < len(items); {
+		j := i
+		for j < len(items) && items[j] == items[i] {
+			j++
+		}
+		if j-i >= 4 {
+			parts = append(parts, fmt.Sprintf("repeat %s (N.to_nat %d)", items[i], j-i))
+		} else {
+			parts = append(parts, vgen.List(items[i:j]))
+		}
+		i = j
+	}
+	return "(" + strings.Join(parts, " ++ ") + ")"
+}
+
 func nlist(ns []uint64) string {
 	items := make([]string, len(ns))
 	for i, n := range ns {
 		items[i] = vgen.N(n)
 	}
-	return vgen.List(items)
+	return coqList(items)
 }
 
 func (v val) coq() string {
@@ -128,7 +150,7 @@ func (v val) coq() string {
 		for i, b := range v.bs {
 			items[i] = vgen.Bool(b)
 		}
-		return vgen.App("VBools", vgen.List(items))
+		return vgen.App("VBools", coqList(items))
 	case 6:
 		return vgen.App("VInts", nlist(v.ns))
 	case 7:
@@ -138,7 +160,7 @@ func (v val) coq() string {
 		for i, s := range v.ss {
 			items[i] = vgen.HxS(s)
 		}
-		return vgen.App("VStrs", vgen.List(items))
+		return vgen.App("VStrs", coqList(items))
 	}
 	return "VInvalid"
 }
@@ -186,7 +208,11 @@ func kvsCoq(l []kvt) string {
 func kvsDesc(l []kvt) []string {
 	out := make([]string, len(l))
 	for i, x := range l {
-		out[i] = fmt.Sprintf("%q=%s", x.k, x.v)
+		d := x.v.String()
+		if n := len(x.v.bs) + len(x.v.ns) + len(x.v.ss); n > 64 {
+			d = fmt.Sprintf("%s... (%d elements)", d[:40], n)
+		}
+		out[i] = fmt.Sprintf("%q=%s", x.k, d)
 	}
 	if len(out) > 40 {
 		out = append(out[:40], fmt.Sprintf("... %d more", len(l)-40))
@@ -1120,6 +1146,46 @@ func main() {
 		}
 		apiChecks(w, "zero Set", &z)
 	})
+
+	// very long slice VALUES (around and far above 1024 elements), every slice type: identity must work as for short ones
+	longVal := func(t, n int, lastDiff bool) val {
+		v := val{t: t}
+		for i := 0; i < n; i++ {
+			d := lastDiff && i == n-1
+			switch t {
+			case 5:
+				v.bs = append(v.bs, d)
+			case 6:
+				x := uint64(7)
+				if d {
+					x = 8
+				}
+				v.ns = append(v.ns, x)
+			case 7:
+				x := uint64(one)
+				if d {
+					x = posInf
+				}
+				v.ns = append(v.ns, x)
+			case 8:
+				x := "x"
+				if d {
+					x = "y"
+				}
+				v.ss = append(v.ss, x)
+			}
+		}
+		return v
+	}
+	for _, t := range []int{5, 6, 7, 8} {
+		for _, n := range []int{1024, 1025, 2048, 5000} {
+			a := []kvt{{"a", val{t: 2, n: 1}}, {"long", longVal(t, n, false)}}
+			addNew(a, fspec{}, "new-long-value")
+			addPair(a, []kvt{{"long", longVal(t, n, false)}, {"a", val{t: 2, n: 1}}}, "long-value:same")
+			addPair(a, []kvt{{"a", val{t: 2, n: 1}}, {"long", longVal(t, n, true)}}, "long-value:last-differs")
+			addPair(a, []kvt{{"a", val{t: 2, n: 1}}, {"long", longVal(t, n-1, false)}}, "long-value:one-shorter")
+		}
+	}
 
 	// ---- generated ----
 	anyCfg := genCfg{}
